@@ -92,6 +92,26 @@ def run(ck):
         ok = ok and any(sw.nodes[j].get('callee') == 'std::filesystem::file_size' for j in sw.walk())
     ck.ob('C04.shape', 'C04.shape/overwrite-then-remove', ok, sw.loc(),
           'secure_wipe_file overwrites the whole file in a loop bounded by wipe_passes_ and only then removes it (single remove)')
+    # success of a wipe means the file is gone: `true` is returned only when the file did not exist, or after the remove
+    cfg_sw = Cfg.of(sw)
+    bad_ret = []
+    for r in [i for i in sw.walk() if sw.nodes[i]['k'] == 'ReturnStmt' and sw.kids(i)]:
+        e = sw.strip(sw.kids(r)[0])
+        if sw.nodes[e].get('cv') == '0':
+            continue
+        after_remove = bool(removes) and cfg_sw.dominates(cfg_sw.locate(removes[0]), cfg_sw.locate(r))
+        absent = False
+        for a in sw.ancestors(r):
+            an = sw.nodes[a]
+            if an['k'] == 'IfStmt' and sw.is_in(r, an['then']):
+                c = sw.strip(an['cond'])
+                cn = sw.nodes[c]
+                if cn['k'] == 'UnaryOperator' and cn.get('op') == '!' and (sw.nodes[sw.strip(sw.kids(c)[0])].get('callee') or '') == 'std::filesystem::exists':
+                    absent = True
+        if not (after_remove or absent):
+            bad_ret.append(r)
+    ck.ob('C04.shape', 'C04.shape/wipe-success-means-gone', not bad_ret, sw.loc(bad_ret[0]) if bad_ret else sw.loc(),
+          'secure_wipe_file reports success only when the file did not exist or after it was removed (no early `return true`)')
     ctor = P.fn(CS + 'ChunkStore')
     ck.touch(ctor)
     ok = False
@@ -112,6 +132,17 @@ def run(ck):
         ok = any(pd.nodes[j].get('m') == REC + 'data' for j in srcs0) and any(pd.nodes[j].get('callee', '').endswith('::data') for j in srcs0) \
             and any(pd.nodes[j].get('m') == REC + 'data' for j in srcs1) and any(pd.nodes[j].get('callee', '').endswith('::size') for j in srcs1)
     ck.ob('C04.shape', 'C04.shape/persist-exact-bytes', ok, pd.loc(), 'persist_chunk_to_disk writes exactly record.data (data(), size())')
+    # the file of a persisted record holds the bytes of THIS store: success is reported only after they were written
+    cfg_pd = Cfg.of(pd)
+    bad_ret = []
+    for r in [i for i in pd.walk() if pd.nodes[i]['k'] == 'ReturnStmt' and pd.kids(i)]:
+        e = pd.strip(pd.kids(r)[0])
+        if pd.nodes[e].get('cv') == '0':
+            continue
+        if not (len(w) == 1 and cfg_pd.dominates(cfg_pd.locate(w[0]), cfg_pd.locate(r))):
+            bad_ret.append(r)
+    ck.ob('C04.shape', 'C04.shape/persist-success-after-write', not bad_ret, pd.loc(bad_ret[0]) if bad_ret else pd.loc(),
+          'persist_chunk_to_disk reports success only after writing the record (a pre-existing file is never taken for the chunk)')
     # interrupted store: once bytes may have been written, every failing return removes the file itself
     # (not through wipe_persisted_chunk, whose `persisted` guard is still false at that point)
     opens = [i for i in pd.walk() if pd.nodes[i]['k'] in ('CXXConstructExpr', 'CXXTemporaryObjectExpr') and
